@@ -179,20 +179,21 @@ const (
 
 // stask is the scheduler-side record of a task.
 type stask struct {
-	id        int
-	tk        *task // opaque: never dereferenced by the scheduler
-	gate      chan resume
-	state     taskState
-	req       request
-	reply     resume
-	prio      int
-	spawnSite string
-	parkedOn  string
-	waits     []*waiter
-	until     int64
-	steps     int
-	parent    *stask
-	spawnStep int
+	id          int
+	tk          *task // opaque: never dereferenced by the scheduler
+	gate        chan resume
+	state       taskState
+	req         request
+	reply       resume
+	prio        int
+	spawnSite   string
+	parkedOn    string
+	waits       []*waiter
+	until       int64
+	steps       int
+	parent      *stask
+	spawnStep   int
+	frozenUntil int // fault task_freeze: not scheduled before this step although enabled
 }
 
 type waiter struct {
@@ -379,37 +380,48 @@ type Config struct {
 	// step budget and be misreported as no-progress). For workloads whose oracle
 	// does not depend on what library goroutines do after the last call returned.
 	StopWhenClientsDone bool
+	// FreezeGap > 0 injects the fault "stalled goroutine": about every FreezeGap
+	// steps (drawn) one enabled task is taken off the processor for up to FreezeMax
+	// steps (drawn) although it could run - what the operating system does to a
+	// thread whenever it likes. The strategies above are fair to a waiter that polls;
+	// this brings back, in bounded doses, the schedules in which somebody makes no
+	// progress at all for a long time (a waiter runs out of spins while the action it
+	// waits for is descheduled). A frozen task thaws early when nothing else can run.
+	FreezeGap int
+	FreezeMax int
 }
 
 // Sim is one simulated execution.
 type Sim struct {
-	cfg      Config
-	rng      Rand
-	reqCh    chan request
-	tasks    []*stask
-	last     *stask
-	objs     map[unsafe.Pointer]*object
-	chans    map[unsafe.Pointer]*chanModel
-	nobj     int
-	step     int
-	now      int64
-	timers   []*stimer
-	tseq     uint64
-	ntimer   int
-	out      Outcome
-	hash     uint64
-	wg       sync.WaitGroup
-	roots    []rootTask
-	stop     bool
-	pctCP    []int
-	lowPrio  int
-	schedPos int
-	drawPos  int
-	runLen   int
-	nLib     int // tasks spawned by the code under test
-	grace    int
-	keyOrd   map[unsafe.Pointer]int64 // insertion ordinals of map keys that have identity only
-	enBuf    []*stask
+	cfg        Config
+	rng        Rand
+	reqCh      chan request
+	tasks      []*stask
+	last       *stask
+	objs       map[unsafe.Pointer]*object
+	chans      map[unsafe.Pointer]*chanModel
+	nobj       int
+	step       int
+	now        int64
+	timers     []*stimer
+	tseq       uint64
+	ntimer     int
+	out        Outcome
+	hash       uint64
+	wg         sync.WaitGroup
+	roots      []rootTask
+	stop       bool
+	pctCP      []int
+	lowPrio    int
+	schedPos   int
+	drawPos    int
+	runLen     int
+	nLib       int // tasks spawned by the code under test
+	grace      int
+	keyOrd     map[unsafe.Pointer]int64 // insertion ordinals of map keys that have identity only
+	nextFreeze int                      // step at which the next task is frozen (FreezeGap > 0)
+	enBuf      []*stask
+	frBuf      []*stask
 }
 
 type rootTask struct {
@@ -679,6 +691,36 @@ func (s *Sim) pick(en []*stask) *stask {
 	return chosen
 }
 
+// freeze implements Config.FreezeGap: it may freeze one of the enabled tasks and
+// returns the enabled tasks that are not frozen (all of them when every one is).
+func (s *Sim) freeze(en []*stask) []*stask {
+	if s.nextFreeze == 0 {
+		s.nextFreeze = s.step + 1 + s.drawN(2*s.cfg.FreezeGap)
+	}
+	if s.step >= s.nextFreeze && len(en) > 1 {
+		v := en[s.drawN(len(en))]
+		max := s.cfg.FreezeMax
+		if max < 1 {
+			max = 1
+		}
+		v.frozenUntil = s.step + 1 + s.drawN(max)
+		s.nextFreeze = s.step + 1 + s.drawN(2*s.cfg.FreezeGap)
+		s.count("fault.task_freeze", 1)
+		s.trace("t%d is taken off the processor until step %d", v.id, v.frozenUntil)
+	}
+	out := s.frBuf[:0]
+	for _, t := range en {
+		if t.frozenUntil <= s.step {
+			out = append(out, t)
+		}
+	}
+	s.frBuf = out
+	if len(out) == 0 {
+		return en
+	}
+	return out
+}
+
 // yieldPriority keeps the priority-based strategies (PCT, partial-order sampling)
 // fair to code that waits by spinning. Both assume tasks that terminate when run
 // alone; one that polls (runtime.Gosched in a loop, or re-reading an atomic) does
@@ -745,6 +787,9 @@ func (s *Sim) Run() *Outcome {
 			s.count("fault.stall", 1)
 			s.advanceClock()
 			continue
+		}
+		if s.cfg.FreezeGap > 0 {
+			en = s.freeze(en)
 		}
 		t := s.pick(en)
 		s.exec(t)
